@@ -384,6 +384,7 @@ func (e *Engine) verifyFunc(ct *FuncContract, prop string) (res *FuncResult) {
 		fc.assume(st, t)
 	}
 	fc.useLemmas(st)
+	fc.initFrame(st)
 	fc.entry = st.clone()
 	fc.canary(st, "canary.entry", fc.body.Pos())
 	end := fc.execBlock(st, fc.body.List)
@@ -499,6 +500,11 @@ func (fc *FnCtx) entryState() *State {
 		fc.collectRegions(v, &leaves)
 		st.vars[p] = v
 		fc.entryVars[name] = v
+		if !(fc.contract != nil && fc.contract.MayAlias) {
+			// the offset of a slice inside its backing array cannot be observed by Go code; since distinct
+			// parameters are assumed not to share a backing array, taking it as 0 loses no behaviour
+			fc.zeroOffsets(st, v, 0)
+		}
 	}
 	// every pre-existing region is below nextR0; distinct slice leaves do not alias (unless mayalias)
 	for _, r := range leaves {
@@ -595,47 +601,7 @@ func (fc *FnCtx) checkFrame(st *State, p token.Pos) {
 		return false
 	}
 	explicit := len(ct.Modifies) > 0 || ct.Pure
-	// 1. byte heap
-	if st.heap.S != fc.entry.heap.S {
-		var allowed []T
-		var wins []heapWindow
-		names := make([]string, 0, len(fc.entryVars))
-		for n := range fc.entryVars {
-			names = append(names, n)
-		}
-		sort.Strings(names)
-		var walk func(path string, v Val, inMod bool)
-		walk = func(path string, v Val, inMod bool) {
-			inMod = inMod || covered(path)
-			switch x := v.(type) {
-			case VSlice:
-				if inMod && isByteElem(x.Elem) {
-					if !strings.Contains(path, ".") {
-						// a slice parameter under `modifies`: only its capacity window may be written
-						wins = append(wins, heapWindow{x.Rgn, x.Off, add(x.Off, x.Cap)})
-					} else {
-						allowed = append(allowed, x.Rgn)
-					}
-				}
-			case VPtr:
-				if x.Obj >= 0 {
-					if tv, ok := fc.entry.objs[x.Obj]; ok {
-						// default contract: everything reachable from pointer parameters may be written
-						walk(path, tv, inMod || !explicit)
-					}
-				}
-			case VStruct:
-				for _, k := range sortedKeys(x.F) {
-					walk(path+"."+k, x.F[k], inMod)
-				}
-			}
-		}
-		for _, n := range names {
-			walk(n, fc.entryVars[n], false)
-		}
-		goal := fc.unchangedOutside(fc.entry.heap, st.heap, fc.entry.nextR, allowed, wins)
-		fc.assert(st, "frame", "frame[heap]", goal, p, "only the cells listed under modifies are written")
-	}
+	// 1. byte heap: checked write by write (frameWrite), see heapwin.go
 	// 2. fields of pointer parameters
 	if explicit {
 		names := make([]string, 0, len(fc.entryVars))
